@@ -1,6 +1,6 @@
 (* C06 — A layer tarball faithfully and canonically serialises the built
    filesystem.  Property theorems only; proofs are in Proofs/TarProofs.v. *)
-From Apko Require Import Base.Prelude Model.Tar Spec.TarSpec Proofs.TarProofs Proofs.TarRoundtrip Proofs.TarOrder.
+From Apko Require Import Base.Prelude Model.Tar Spec.TarSpec Proofs.TarProofs Proofs.TarRoundtrip Proofs.TarOrder Proofs.TarLinks.
 From Coq Require Import Sorting.Sorted.
 Open Scope string_scope. Open Scope list_scope.
 
@@ -69,6 +69,56 @@ Theorem c06_digest : forall (bytes : Type) (gz : bytes -> bytes) (sha : bytes ->
 Proof. exact layer_writer_digests. Qed.
 Print Assumptions c06_digest.
 
+(* c06_extract_walk_links — the positive statement for trees WITH recorded hard
+   links.  Envelope [wfl_forest (has_hdr ev) f] (Spec/TarSpec.v): child names
+   distinct; xattrs only on regular files and directories; and every additional
+   name [File m l (Some q)] at a path p
+     (a) was recorded with a tar header (has_hdr ev p — tarfs node.hardlinks),
+     (b) has a target q that sorts before p in the walk order (path_ltb q p),
+     (c) q has only non-empty components without '/',
+     (d) the node at q in the same tree is a non-directory with the same metadata
+         and content (the inode is shared),
+     (e) is not a symlink with a non-empty target.
+   Then the reference extractor — which REQUIRES a link's target to exist when
+   the link entry is applied — returns exactly the tree, inode sharing included
+   (the link node carries [Some q]).  The boundary is exact clause by clause:
+   without (a) finding C06-F1, without (b) C06-F2, without (d) C06-F5 (tarfs
+   link() resolves a final symlink in the target name but records the unresolved
+   name), without (e) the walkFS re-typing quirk (a state no tarfs operation
+   produces); c06_links_boundary has a witness for each.  wf_forest (no links at
+   all, c06_extract_walk) is the special case. *)
+Theorem c06_extract_walk_links : forall ev f, wfl_forest (has_hdr ev) f = true ->
+  extract (walk ev f) = Ok (canon_forest f).
+Proof. exact extract_walk_links. Qed.
+Print Assumptions c06_extract_walk_links.
+
+Theorem c06_links_envelope_extends : forall hh f, wf_forest f = true -> wfl_forest hh f = true.
+Proof. exact wf_forest_wfl. Qed.
+Print Assumptions c06_links_envelope_extends.
+
+(* the readable statement for the entries the tar writer leaves in the layer
+   (whole-second mtimes: C06-F3 aside): extraction yields the tree, paths strictly
+   increasing, names from passwd/group *)
+Theorem c06_faithful_links : forall ev f, wfl_forest (has_hdr ev) f = true -> whole_seconds_forest f = true ->
+  Faithful (users ev) (groups ev) f (emitted ev f).
+Proof. exact faithful_links. Qed.
+Print Assumptions c06_faithful_links.
+
+Example c06_extract_walk_links_example :
+  wfl_forest (has_hdr env_allhdr) w_links = true /\ wf_forest w_links = false /\
+  whole_seconds_forest w_links = true /\ validate [] [] w_links (emitted env_allhdr w_links) = [].
+Proof. vm_compute. repeat split; reflexivity. Qed.
+
+Theorem c06_links_boundary :
+  validate [] [] w_link_to_symlink (emitted env_allhdr w_link_to_symlink) <> [] /\
+  validate [] [] w_link_names_symlink (emitted env_allhdr w_link_names_symlink) <> [] /\
+  wfl_forest (has_hdr env_allhdr) w_link_to_symlink = false /\
+  wfl_forest (has_hdr env_allhdr) w_link_names_symlink = false /\
+  wfl_forest (has_hdr env_nohdr) w_link_after = false /\
+  wfl_forest (has_hdr env_allhdr) w_link_before = false.
+Proof. exact links_boundary. Qed.
+Print Assumptions c06_links_boundary.
+
 (* c06_hardlinks — the full statement "every tree with hard links is serialised
    faithfully" is FALSE of the faithful model and of the code, in two ways:
    (1) an additional name created without a tar header (tarfs Link(), i.e. a
@@ -76,8 +126,8 @@ Print Assumptions c06_digest.
    independent regular file [finding C06-F1];
    (2) a recorded link is emitted where the walk meets it, so one that sorts
    before its target precedes it and extraction fails [finding C06-F2].
-   What does hold: a recorded link whose target sorts first round-trips
-   (Example below); trees without additional names: c06_extract_walk. *)
+   What does hold: recorded links whose targets sort first round-trip
+   (c06_extract_walk_links); trees without additional names: c06_extract_walk. *)
 Theorem c06_hardlinks_refuted :
   (exists f, wf_names_forest f = true /\ ~ Faithful [] [] f (emitted env_nohdr f)) /\
   (exists f, wf_names_forest f = true /\ ~ Faithful [] [] f (emitted env_allhdr f)).
